@@ -85,7 +85,8 @@ class World:
                     # a mapping is a dictionary: the order in which its keys are written must not matter
                     # (seeded change C12-1 looked components up by position in vdim_mapping.values())
                     mapping = dict(reversed(list(mapping.items())))
-            self.obj[oid] = fld.labelled_field(self.df, mesh, nv, arr, vd, mapping, sum(o["shape"]) + sum(o["map"]) + oid, valid=valid)
+            self.obj[oid] = fld.lived(fld.labelled_field(self.df, mesh, nv, arr, vd, mapping, sum(o["shape"]) + sum(o["map"]) + oid, valid=valid),
+                                      sum(o["shape"]) + 2 * oid + nv)
         return self.obj[oid]
 
 
